@@ -752,6 +752,9 @@ func (e *Exec) defVal(v ssa.Value, term Term) {
 	s := e.g.sortOf(v.Type())
 	t := e.def(v.Name(), s, term)
 	e.vals[v] = val{t: t}
+	if e.parent != nil {
+		return // quantified (loop-summary) context: type invariants are facts we can do without
+	}
 	if inv := e.typeInv(v.Type(), t); inv != "true" {
 		e.assume(implies(e.reach[e.curBlock], inv))
 	}
